@@ -9,6 +9,7 @@ def check(tier):
     for c, k, m in sat:
         classlemmas.replay_sat(chk, c, k, m)
     leaves.run_roundtrip_leaves(chk, tier)
+    leaves.run_integer_acceptance(chk, tier)
     rootcheck.run(chk)
     chk.ev.coverage["stubs"] = ["converter.structure(obj, attrs class) and _structure_func.dispatch(attrs class) return a Dispatched(cls, obj) token (the cut; recursive descent is replaced by the class lemma of the chosen class)", "format(symbolic, '') -> '<sym>'", "cattrs code generation under NoTracing", "handler lookup memoised outside tracing (lru_cache bypass)"]
     chk.ev.coverage["outside_bounds"] = ["values nested deeper than the bound below a union as seen by a hook (covered by the induction of DESIGN 3.5, not by a lemma)", "arrays longer than the bound at hook-inspected positions", "strings longer than the bound"]
